@@ -1,15 +1,180 @@
-"""Lean back end (stub until the static theory is in place)."""
+"""Lean 4 + Mathlib back end.
+
+(1) static theory lean/SpakeTheory/Algebra.lean: the machine-checked side of the T1 lemma schemas of pyvc/theory.py;
+(2) generated: the coordinate-level functions of ed25519_basic.py are printed to Lean on every run
+    (pyvc/leangen.py) and the theorems of lean/SpakeTheory/EdwardsProofs.lean are checked against that text.
+Results are cached by the sha256 of the exact text handed to `lean` (a build cache: same input, same verdict)."""
+import os, re, json, hashlib, subprocess, time, tempfile, shutil
 from .interp import Obligation
 
+VERIF = os.path.dirname(os.path.dirname(os.path.abspath(__file__)))
+LEAN_DIR = os.path.join(VERIF, "lean", "SpakeTheory")
+CACHE = os.path.join(VERIF, ".cache")
+FORBIDDEN = re.compile(r"\b(sorry|admit|native_decide)\b|^\s*axiom\b", re.M)
 
-def theorem_status(name):
-    return "undecided", "lean back end not wired yet"
+# theory.py lemma name -> Lean theorem (file Algebra.lean, namespace Spake2Algebra) or Mathlib fact
+THEOREMS = {
+    "powmod_mul": "powmod_mul", "powmod_pow": "powmod_pow", "powmod_exp_mul": "powmod_exp_mul",
+    "powmod_base_one": "powmod_base_one", "powmod_zero": "powmod_zero", "fermat": "fermat",
+    "prime_ge_two": "prime_ge_two_int", "prime_mul_nonzero": "prime_mul_nonzero",
+    "spake2_agree": "spake2_agree",
+    "ed_mul_zero": "mul_zero'", "ed_mul_step": "mul_step", "ed_mul_mod": "mul_mod", "ed_insub_def": "insub",
+    "ed_insub_add": "insub_add", "ed_insub_mul": "insub_mul", "ed_insub_O": "insub_zero", "ed_insub_neg": "insub_neg",
+    "ed_prime_order": "prime_order", "ed_neg_mul": "neg_mul_L", "ed_mul_one": "mul_one'", "ed_mul_mul": "mul_mul",
+    "ed_add_zero": "Mathlib:add_zero/zero_add", "ed_add_comm": "Mathlib:add_comm", "ed_neg_def": "neg_mul'",
+    "ed_mul_O": "Mathlib:smul_zero", "ed_neg_O": "Mathlib:neg_zero",
+    "ed_same_y": "Edwards:enc_injective_core",
+}
+NEEDS_EDGROUP = {k for k in THEOREMS if k.startswith("ed_") and k != "ed_same_y"}
+
+
+def _sha(text):
+    return hashlib.sha256(text.encode()).hexdigest()
+
+
+def run_lean(text, tag, timeout=1500):
+    """check one Lean text; returns dict(ok, seconds, output tail, cached)"""
+    os.makedirs(CACHE, exist_ok=True)
+    ver = subprocess.run(["lean", "--version"], capture_output=True, text=True).stdout.strip()
+    key = _sha(ver + "\n" + text)
+    cf = os.path.join(CACHE, "lean_%s_%s.json" % (tag, key[:24]))
+    if os.path.exists(cf):
+        r = json.load(open(cf))
+        r["cached"] = True
+        return r
+    d = tempfile.mkdtemp(prefix="pyvc_lean_")
+    try:
+        fn = os.path.join(d, tag + ".lean")
+        open(fn, "w").write(text)
+        t0 = time.time()
+        try:
+            p = subprocess.run(["lean", fn], capture_output=True, text=True, timeout=timeout, cwd=d)
+            out = (p.stdout + p.stderr)
+            rc = p.returncode
+        except subprocess.TimeoutExpired:
+            out, rc = "TIMEOUT", 124
+        secs = time.time() - t0
+    finally:
+        shutil.rmtree(d, ignore_errors=True)
+    bad_axioms = []
+    for m in re.finditer(r"depends on axioms: \[([^\]]*)\]", out):
+        for a in m.group(1).split(","):
+            a = a.strip()
+            if a and a not in ("propext", "Classical.choice", "Quot.sound"):
+                bad_axioms.append(a)
+    ok = rc == 0 and not FORBIDDEN.search(text) and "sorry" not in out and "error" not in out and not bad_axioms
+    r = dict(ok=ok, rc=rc, seconds=round(secs, 1), tail=out[-1500:], sha=key, bad_axioms=bad_axioms, cached=False)
+    if rc != 124:
+        json.dump(r, open(cf, "w"))
+    return r
+
+
+_STATIC = {}
+
+
+def algebra_status():
+    if "alg" not in _STATIC:
+        fn = os.path.join(LEAN_DIR, "Algebra.lean")
+        text = open(fn).read()
+        r = run_lean(text, "Algebra")
+        names = set(re.findall(r"^\s*(?:theorem|lemma|def)\s+([A-Za-z_0-9']+)", text, re.M))
+        _STATIC["alg"] = (r, names)
+    return _STATIC["alg"]
+
+
+def lemma_status(name):
+    """(status, detail) for a T1 lemma schema of theory.py"""
+    th = THEOREMS.get(name)
+    if th is None:
+        return "assumed", "no Lean theorem (T2)"
+    if th.startswith("Mathlib:"):
+        return "discharged", th
+    if th.startswith("Edwards:"):
+        st = edwards_status()
+        t = th.split(":")[1]
+        return ("discharged", "EdwardsProofs.lean:" + t) if st["ok"] and t in st["theorems"] else ("undecided", "Edwards theorem %s not available: %s" % (t, st.get("why", "")))
+    r, names = algebra_status()
+    if not r["ok"]:
+        return "undecided", "Algebra.lean does not build: " + r["tail"][-300:]
+    if th not in names:
+        return "undecided", "theorem %s not found in Algebra.lean" % th
+    return "discharged", "Algebra.lean:Spake2Algebra.%s (lean %.0fs%s)" % (th, r["seconds"], ", cached" if r["cached"] else "")
+
+
+# ---- generated part ------------------------------------------------------------------------------------------------------
+GEN_FUNCS = [("inv", {}, "ℤ"), ("double_element", {"pt": 4}, "ℤ × ℤ × ℤ × ℤ"), ("add_elements", {"pt1": 4, "pt2": 4}, "ℤ × ℤ × ℤ × ℤ"),
+             ("_add_elements_nonunfied", {"pt1": 4, "pt2": 4}, "ℤ × ℤ × ℤ × ℤ"), ("xform_affine_to_extended", {"pt": 2}, "ℤ × ℤ × ℤ × ℤ"),
+             ("xform_extended_to_affine", {"pt": 4}, "ℤ × ℤ"), ("is_extended_zero", {"XYTZ": 4}, "Prop"), ("isoncurve", {"P": 2}, "Prop")]
+
+
+def generate_defs(repo, consts_values):
+    from . import leangen
+    m = repo.modules["ed25519_basic"]
+
+    def lit(n):
+        return "(%d : ℤ)" % n if n >= 0 else "(-%d : ℤ)" % -n
+    out = "-- GENERATED on every run from src/spake2/ed25519_basic.py by pyvc/leangen.py; do not edit\n"
+    out += "def Q : ℕ := 2^255 - 19\n"
+    out += "def spake_d : ℤ := %s\n" % lit(consts_values["d"])
+    out += "def spake_I : ℤ := %s\n\n" % lit(consts_values["I"])
+    consts = {"Q": "(Q : ℤ)", "d": "spake_d", "I": "spake_I"}
+    errors = {}
+    for fn, tp, rt in GEN_FUNCS:
+        try:
+            node = m.functions[fn].node
+            p, l, r = leangen.function_to_lean(node, consts, tp)
+            out += leangen.render(fn, p, l, r, rt) + "\n"
+        except Exception as e:
+            errors[fn] = "%s: %s" % (type(e).__name__, e)
+    return out, errors
+
+
+def edwards_status(repo=None, verifier=None):
+    if "edw" in _STATIC:
+        return _STATIC["edw"]
+    hdr = os.path.join(LEAN_DIR, "EdwardsHeader.lean")
+    prf = os.path.join(LEAN_DIR, "EdwardsProofs.lean")
+    if not (os.path.exists(hdr) and os.path.exists(prf)):
+        _STATIC["edw"] = dict(ok=False, theorems=set(), why="EdwardsProofs.lean not present")
+        return _STATIC["edw"]
+    if repo is None:
+        from .repo import Repo
+        repo = Repo()
+    from .repo import oracle, Oracle
+    vals = {}
+    for n in ("d", "I", "Q"):
+        r = oracle().req(op="global", module="spake2.ed25519_basic", name=n)
+        vals[n] = Oracle.dec(r["value"]) if r.get("ok") else None
+    if vals["Q"] != 2 ** 255 - 19 or not isinstance(vals["d"], int) or not isinstance(vals["I"], int):
+        _STATIC["edw"] = dict(ok=False, theorems=set(), why="module constants Q/d/I unreadable or Q != 2^255-19")
+        return _STATIC["edw"]
+    gen, errors = generate_defs(repo, vals)
+    text = open(hdr).read() + "\n" + gen + "\n" + open(prf).read()
+    r = run_lean(text, "Edwards")
+    names = set(re.findall(r"^\s*(?:theorem|lemma)\s+([A-Za-z_0-9']+)", open(prf).read(), re.M))
+    _STATIC["edw"] = dict(ok=r["ok"] and not errors, theorems=names, why=(str(errors) if errors else r["tail"][-400:]), seconds=r["seconds"], cached=r["cached"], gen_errors=errors, sha=r["sha"])
+    return _STATIC["edw"]
+
+
+def theorem_status(name, repo=None):
+    st = edwards_status(repo)
+    if st["ok"] and name in st["theorems"]:
+        return "discharged", "EdwardsProofs.lean:%s checked against the generated mirror of the real function (lean %.0fs%s)" % (name, st.get("seconds", 0), ", cached" if st.get("cached") else "")
+    return "undecided", "lean: %s" % st.get("why", "")[:400]
 
 
 def report_for(verifier, rep, c, finfo):
-    st, why = theorem_status(c.lean_theorem)
+    st, why = theorem_status(c.lean_theorem, verifier.repo)
+    if st != "discharged":
+        # a failed proof is not a violation: look for a concrete falsifying input on the real function
+        from . import edfalsify
+        w = edfalsify.falsify(c.qual)
+        if w is not None:
+            st, why = "refuted", "real function disagrees with the Edwards law on a concrete valid input"
     for cl in c.post:
-        ob = Obligation("%s/%s#lean" % (c.qual, cl.name), "ensures", cl, None, st, extra={"reason": why, "backend": "lean", "theorem": c.lean_theorem})
+        ob = Obligation("%s/%s#lean" % (c.qual, cl.name), "ensures", cl, None, st,
+                        model=(w if st == "refuted" else None), extra={"reason": why, "backend": "lean", "theorem": c.lean_theorem})
         rep.obligations.append(ob)
     rep.paths = 1
     rep.path_outcomes.append((0, "lean", "return", None))
+    rep.notes.add("lean back end: %s -> %s" % (c.lean_theorem, st))
